@@ -869,7 +869,10 @@ class CallMixin:
         name = "_res"
         if name in st.frame.locals:
             raise Unsupported("nested effectful comprehensions")
-        st.frame.locals[name] = self.new_cell(st, self.empty_list(ANY))
+        c = self.cur_contract
+        label = self.loop_label(st, node, "comp")
+        ety = (c.comp_types.get(label) if c is not None else None) or ANY      # declared element type of the result
+        st.frame.locals[name] = self.new_cell(st, self.empty_list(ety))
         call = ast.Expr(value=ast.Call(func=ast.Attribute(value=ast.Name(id=name, ctx=ast.Load()), attr="append", ctx=ast.Load()),
                                        args=[node.elt], keywords=[]))
         loop = ast.For(target=gen.target, iter=gen.iter, body=[call], orelse=[])
